@@ -432,6 +432,46 @@ def mod_reduced(fi, modulus=12, names=('NOTES_PER_OCTAVE',)):
   return (UNKNOWN, 'cannot classify: the value %s returns is not visibly reduced modulo %d' % (fi.qualname, modulus))
 
 
+def wrapper_defaults(fi):
+  """[Site]: a function that hands one of its own parameters straight to a module-level function of the same module must give that
+  parameter the default the callee gives it - otherwise calling the wrapper with defaults is not the callee's default behaviour
+  (a file writer that trims what the in-memory conversion keeps).  OK / BAD per forwarded parameter that has a default on both
+  sides; UNKNOWN when one default is not a literal."""
+  out = []
+  fn = fi.node
+
+  def defaults(f):
+    a = f.args
+    pos = a.posonlyargs + a.args
+    d = dict((p.arg, v) for p, v in zip(pos[len(pos) - len(a.defaults):], a.defaults))
+    d.update((p.arg, v) for p, v in zip(a.kwonlyargs, a.kw_defaults) if v is not None)
+    return d, [p.arg for p in pos]
+  mine, _ = defaults(fn)
+  for c in ast.walk(fn):
+    if not (isinstance(c, ast.Call) and isinstance(c.func, ast.Name) and c.func.id in fi.module.functions and c.func.id != fn.name):
+      continue
+    g = fi.module.functions[c.func.id].node
+    theirs, order = defaults(g)
+    pairs = [(order[i], a) for i, a in enumerate(c.args) if i < len(order)] + [(k.arg, k.value) for k in c.keywords if k.arg]
+    for q, a in pairs:
+      if isinstance(a, ast.Name) and a.id in mine and q in theirs:
+        # the parameter must reach the call unchanged
+        if any(isinstance(t, ast.Name) and t.id == a.id for st in U.walk_stmts(fn) for t, _v, _o in U.store_targets(st)):
+          continue
+        dm, dt = mine[a.id], theirs[q]
+        try:
+          vm, vt = ast.literal_eval(dm), ast.literal_eval(dt)
+        except (ValueError, SyntaxError):
+          out.append(Site('wrapper-default', c, UNKNOWN, 'cannot classify: the defaults of %s (%s) and of %s.%s (%s) are not literals' % (a.id, norm_text(dm), g.name, q, norm_text(dt))))
+          continue
+        same = (vm == vt and type(vm) is type(vt))
+        out.append(Site('wrapper-default', c, OK if same else BAD,
+                        ('%s defaults to %r like %s of %s' % (a.id, vm, q, g.name)) if same else
+                        '%s hands its parameter %s to %s(%s=...) but defaults it to %r where %s defaults to %r: called with defaults, %s does not do what %s does with defaults' % (
+                            fn.name, a.id, g.name, q, vm, g.name, vt, fn.name, g.name)))
+  return out
+
+
 # --------------------------------------------------------------------------------------------------------- self examples
 SELF_EXAMPLES = [
     ('neg-zero-slice', 'def f(xs, n):\n  k = len(xs) - n\n  if k < 0:\n    return\n  del xs[-k:]\n', BAD),
@@ -468,6 +508,7 @@ DETECT = {
     'narrowing-cast': lambda fn, mod: narrowing_casts(fn),
     'stale-sibling': lambda fn, mod: stale_siblings(fn),
 }
+DETECT_FI = {'wrapper-default': wrapper_defaults}      # detectors that need the FuncInfo (module context)
 
 _checked = []
 
@@ -499,7 +540,7 @@ def apply(ctx, rule_prefix, funcs, kinds, why_matters):
   ctx.count('pitfall_self_examples', n)
   for fi in funcs:
     for kind in kinds:
-      sites = DETECT[kind](fi.node, fi.module)
+      sites = DETECT_FI[kind](fi) if kind in DETECT_FI else DETECT[kind](fi.node, fi.module)
       rule = '%s/%s' % (rule_prefix, kind)
       if not sites:
         ctx.ob(rule, fi, fi.node, True, 'no %s site in %s' % (kind, fi.qualname), construct='%s: no %s site' % (fi.qualname, kind))
